@@ -28,10 +28,9 @@ fn parse_headers(buf: &[u8]) -> Result<(Headers<'_>, &[u8]), HttpParsingError> {
             None => return Err(UnexpectedEof),
         };
 
-        // require CRLF
+        // require CRLF: a line ending in a bare LF is malformed (never skipped)
         if nl == 0 || buf[nl - 1] != b'\r' {
-            buf = &buf[nl + 1..];
-            continue;
+            return Err(MalformedHeader);
         }
 
         let line = &buf[..nl - 1];
